@@ -77,3 +77,33 @@ func VerifSubGroupDecode() {
 	}
 	vnd.Cover(err != nil, "subgroup decode error reachable")
 }
+
+// verifVarintBytes returns an arbitrary varint encoding of the size class chosen by the engine
+// (1..9 bytes): the class prefix is fixed, every value bit is arbitrary.
+func verifVarintBytes(name string) []byte {
+	prefix := []byte{0x00, 0x80, 0xC0, 0xE0, 0xF0, 0xF8, 0xFC, 0xFE, 0xFF}
+	mask := []byte{0x7F, 0x3F, 0x1F, 0x0F, 0x07, 0x03, 0x01, 0x00, 0x00}
+	k := vnd.Choose(name+"class", 9)
+	b := vnd.Bytes(name, k+1)
+	b[0] = prefix[k] | (b[0] & mask[k])
+	return b
+}
+
+// VerifObjectLengthFields: every encoding of an object's length field (properties length
+// or payload length: 1–9 byte varints over the full 64-bit range) followed by up to
+// two more bytes is handled without panic and without allocating beyond the declared limits.
+func VerifObjectLengthFields() {
+	withProps := vnd.Bool("props")
+	buf := append([]byte{0x05}, verifVarintBytes("lenfield")...) // object id delta 5, then the length field
+	buf = append(buf, vnd.Bytes("rest", vnd.Choose("restlen", vnd.Bound("rest_bytes", 2)+1))...)
+	vnd.AllocLimit(maxPayloadSize)
+	h := &Header{Properties: withProps}
+	var o Object
+	err := o.read(bytes.NewReader(buf), h)
+	if err == nil {
+		vnd.Assert(len(o.Payload) <= len(buf), "object: payload comes from the input")
+		vnd.Assert(o.IDDelta == 5, "object: id delta read")
+	}
+	vnd.Cover(err == nil && len(o.Payload) > 0, "object with payload decoded")
+	vnd.Cover(err != nil, "object decode error reachable")
+}
